@@ -3,7 +3,8 @@ Each must compile and every listed check must exit 0 on it (never a VIOLATION). 
 import json, os, subprocess, sys, tempfile, shutil
 VERIF = os.path.dirname(os.path.dirname(os.path.abspath(__file__)))
 names = sys.argv[1:] or sorted(d for d in os.listdir(os.path.join(VERIF, 'neutral')) if os.path.isdir(os.path.join(VERIF, 'neutral', d)))
-res = {}
+rp = os.path.join(VERIF, 'neutral', 'RESULTS.json')
+res = json.load(open(rp)) if (sys.argv[1:] and os.path.exists(rp)) else {}
 for n in names:
     d = os.path.join(VERIF, 'neutral', n)
     wt = tempfile.mkdtemp(prefix='cel-neutral-'); os.rmdir(wt)
@@ -22,4 +23,4 @@ for n in names:
     finally:
         subprocess.call(['git', '-C', '/repo', 'worktree', 'remove', '--force', wt])
         shutil.rmtree(bd, ignore_errors=True)
-json.dump(res, open(os.path.join(VERIF, 'neutral', 'RESULTS.json'), 'w'), indent=1)
+json.dump(res, open(rp, 'w'), indent=1, sort_keys=True)
